@@ -116,7 +116,8 @@ fn neighbours(seed: &str, out: &mut Vec<String>) {
     }
     // insertion of multi-byte characters at every char position
     for (i, _) in seed.char_indices().chain(std::iter::once((seed.len(), ' '))) {
-        for m in ["é", "日"] {
+        // (the last four change their UTF-8 length when lower-cased: Kelvin sign, dotted capital I, capital sharp s, Ohm sign)
+        for m in ["é", "日", "\u{212a}", "\u{130}", "\u{1e9e}", "\u{2126}"] {
             out.push(format!("{}{}{}", &seed[..i], m, &seed[i..]));
         }
     }
@@ -213,7 +214,7 @@ pub fn inputs(tier: Tier) -> Vec<(String, &'static str)> {
         }
     }
     // 4. every string of <= 2 scalar values over a 40-value alphabet incl. 2-, 3-, 4-byte characters
-    let alpha: Vec<char> = vec!['a', 'Z', '0', '9', '_', ' ', '\n', '\t', '"', '\'', '(', ')', '{', '}', '[', ']', ';', ',', '.', '=', '!', '<', '>', '&', '|', '+', '-', '*', '/', '%', '$', '?', ':', '\\', 'é', 'ß', '日', '名', '😀', '\u{0}'];
+    let alpha: Vec<char> = vec!['a', 'Z', '0', '9', '_', ' ', '\n', '\t', '"', '\'', '(', ')', '{', '}', '[', ']', ';', ',', '.', '=', '!', '<', '>', '&', '|', '+', '-', '*', '/', '%', '$', '?', ':', '\\', 'é', 'ß', '日', '名', '😀', '\u{0}', '\u{212a}', '\u{130}', '\u{1e9e}', '\u{2126}'];
     for a in &alpha {
         v.push((a.to_string(), "utf8_short"));
         for b in &alpha {
@@ -254,6 +255,31 @@ pub fn inputs(tier: Tier) -> Vec<(String, &'static str)> {
                         }
                     }
                 }
+            }
+        }
+    }
+    // 5b. characters whose lower- or upper-case form has another UTF-8 length, once and twice, at every token boundary
+    //     of the seed rule (case folding that is used to compute byte offsets shifts them)
+    {
+        let toks = tokenize(SEED_RULE);
+        for ch in ["\u{212a}", "\u{130}", "\u{1e9e}", "\u{2126}", "\u{212b}", "\u{fb01}"] {
+            for i in 0..=toks.len() {
+                for j in i..=toks.len() {
+                    if j > i + 12 && j != toks.len() {
+                        continue;
+                    }
+                    let mut t = toks.clone();
+                    t.insert(j, ch.to_string());
+                    t.insert(i, ch.to_string());
+                    v.push((t.concat(), "case_folding_length_change"));
+                }
+            }
+        }
+        for ch in ["\u{212a}", "\u{130}"] {
+            for tail in ["", " ", "é", "x", "\u{130}"] {
+                v.push((format!("rule R {{ when A.b == 1 {} then{}", ch, tail), "case_folding_length_change"));
+                v.push((format!("rule R {{ when A.b == {}{} then {}é = 1; }}", ch, ch, tail), "case_folding_length_change"));
+                v.push((format!("rule R {{ when {} then {}", ch, tail), "case_folding_length_change"));
             }
         }
     }
